@@ -15,6 +15,12 @@ def spec(nodes, edges, nattr=None, eattr=None, gattr=None):
             "graph": dict(gattr or {})}
 
 
+class StrTag(str):
+    """a str subclass whose str() differs from the string itself"""
+    def __str__(self):
+        return "Tag." + str.__str__(self)
+
+
 def build(sp):
     G = nx.DiGraph()
     for n, d in sp["nodes"]:
@@ -22,12 +28,16 @@ def build(sp):
     for u, v, d in sp["edges"]:
         G.add_edge(u, v, **d)
     G.graph.update(sp.get("graph", {}))
+    if sp.get("str_subclass"):
+        # the same graph with nodes of a str subclass whose str() is NOT the node (like a member of `class N(str, enum.Enum)`): such a node
+        # is a string (passes the 'nodes must be strings' check), equals and hashes like the plain name
+        G = nx.relabel_nodes(G, {v: StrTag(v) for v in G.nodes})
     npt = sp.get("np_type")
     if npt:
         # the same numbers stored as numpy scalars of the named type (what a graph built from an array or a data frame carries);
         # sp["np_attrs"] names the attributes concerned (default: "flow")
         import numpy as np
-        t = getattr(np, npt)
+        t = (lambda x: np.array(x)) if npt == "array0d" else getattr(np, npt)      # ("array0d": 0-dimensional arrays, mutable scalars in disguise)
         for attrs in [d for _, d in G.nodes(data=True)] + [d for _, _, d in G.edges(data=True)]:
             for a in sp.get("np_attrs", ["flow"]):
                 if a in attrs and attrs[a] is not None and not isinstance(attrs[a], bool):
